@@ -159,7 +159,9 @@ Proof.
         destruct (Hq x Hx) as [H|[id ->]]; [apply F4; apply in_or_app; left; exact H | left; reflexivity]. }
     destruct a as [id|id err|id]; cbn [on_ack].
     + destruct (in_out id (pubout w)); [apply G; auto | split; [exact HF | reflexivity]].
-    + destruct (v5 && err); apply G; [auto|]. intros x Hx. apply in_app_or in Hx. destruct Hx as [Hx|[<-|[]]]; [left; exact Hx | right; exists id; reflexivity].
+    + destruct (v5 && err).
+      * destruct (in_out id (pubout w)); [apply G; auto | split; [exact HF | reflexivity]].
+      * apply G. intros x Hx. apply in_app_or in Hx. destruct Hx as [Hx|[<-|[]]]; [left; exact Hx | right; exists id; reflexivity].
     + destruct (in_out id (pubout w)); [apply G; auto | split; [exact HF | reflexivity]].
   - (* EClose *) rewrite app_nil_r. inversion Hs; subst. cbn [fresh_out filter map app]. unfold close.
     destruct (alive w) eqn:Ea; cbn [negb]; [|split; [exact HF | reflexivity]].
